@@ -5,12 +5,12 @@ from props import wsmodel as W
 
 ID = "C09"
 PROPERTIES_V = "theories/Properties/C09X.v"
-EXTRA_PROPERTIES_V = ["theories/Properties/C09W.v"]   # two-workspace world: cross-workspace copies, frame across workspaces
+EXTRA_PROPERTIES_V = ["theories/Properties/C09W.v", "theories/Properties/C09T.v"]   # two-workspace world: cross-workspace copies, frame across workspaces
 CHUNK = 8  # histories are heavy terms (a dump of tree and file after every op): small case files, evaluated in parallel
-CASE_IMPORTS = "From GV Require Import Prelude.Base Model.WsX Model.WsXCheck."
+CASE_IMPORTS = "From GV Require Import Prelude.Base Model.WsX Model.WsXCheck.\nFrom GV Require Model.WsT Model.WsTCheck."  # typed terms are fully qualified
 ALLOWED_AXIOMS: list = []
 REFUTED = []
-PARTIAL = ["C09_step_frame (unconditional footprint; for Move/Reopen the sharp footprint needs Rep: C09_step_frame_rep / C09_step_frame_run)"]
+PARTIAL = ["C09_step_frame (unconditional footprint; for Move/Reopen the sharp footprint needs Rep: C09_step_frame_rep / C09_step_frame_run)", "C09T_types_frame / C09T_links_frame / C09T_reopen_file_identity (typed layer Model/WsT.v, unconditional: type nodes outside the type footprint and Type links of other entities are identical; close + open writes nothing)", "C09T_reopen_identity"]
 LEVEL_TEXT = ("Unbounded Coq frame theorems: for EVERY state and EVERY single operation, each flat node outside the operation's footprint (target, parents left/joined, nodes created/deleted, "
               "swept dead nodes) is identical before and after, and the Root link is never rewritten (C09_step_frame, C09_step_rootlink); in every state reached by a fresh history a move rewrites "
               "only the two parents' child lists and close+open rewrites nothing except deleting dead groups (C09_step_frame_run). Types and the project header are outside the Coq model: "
@@ -43,10 +43,19 @@ def generate(rng, tier):
     # oracle-only stream: drillhole groups (concatenated storage), two workspaces, cross-workspace copies, listing getters
     m = 40 if tier == "quick" else 800
     cases += [{"dh": True, "ops": wsext.gen_dh_history(rng.fork(7000 + i), rng.range(14, 26))} for i in range(m)]
+    # typed layer (Model/WsT.v): entity types under caller-supplied identifiers (shared / swept / stale), compared with the model
+    from props import wstypes
+
+    kt = 30 if tier == "quick" else 700
+    cases += [{"t": True, "ops": wstypes.gen_history_t(rng.fork(14000 + i), rng.range(12, 24))} for i in range(kt)]
     return cases
 
 
 def drive_one(case, work):
+    if case.get("t"):
+        from props import wstypes
+
+        return wstypes.run_history_t(case["ops"], work, "c09t")
     if case.get("dh"):
         from props import wsext
 
@@ -55,6 +64,10 @@ def drive_one(case, work):
 
 
 def case_term(case, obs):
+    if case.get("t"):
+        from props import wstypes
+
+        return wstypes.history_case_term_t(case["ops"], obs["steps"])
     if case.get("dh"):
         return None  # outside the Coq model
     return W.history_case_term_x(obs["ops_filled"], obs["steps"])
@@ -93,6 +106,10 @@ def oracle(case, obs):
     it creates or deletes and types it introduces or stops using; open+close without mutation changes nothing."""
     if "crash" in obs:
         return [{"key": "driver-crash", "what": obs["crash"][:300]}]
+    if case.get("t"):
+        from props import wstypes
+
+        return wstypes.oracle_c09_t(case["ops"], obs["steps"])
     if case.get("dh"):
         from props import wsext
 
@@ -164,6 +181,8 @@ def oracle(case, obs):
 
 
 def nontrivial(case, obs):
+    if case.get("t"):
+        return any(o["op"] in ("rm_ws", "rm_parent", "types") for o in case["ops"]) and any(o["op"] == "create" and o["k"] == "D" for o in case["ops"])
     if case.get("dh"):
         return sum(1 for o in case["ops"] if o["op"] in ("hole_data", "dh_update", "dh_rm", "dh_copy")) >= 3
     muts = sum(1 for o in case["ops"] if o["op"] not in ("sweep", "reopen"))
